@@ -60,7 +60,7 @@ func (rr *NSEC3) Cover(name string) bool {
 		return false
 	}
 
-	nextHash := rr.NextDomain
+	nextHash := strings.ToUpper(rr.NextDomain)
 
 	// if empty interval found, try cover wildcard hashes so nameHash shouldn't match with ownerHash
 	if ownerHash == nextHash && nameHash != ownerHash { // empty interval
